@@ -190,6 +190,7 @@ ASM_CLASS_MODELS = {
     VR.SignalAssignment: _node(VR.SignalAssignment, ["_target", "_source"]), VR.Target: _node(VR.Target, ["result"]), VR.Value: _node(VR.Value, ["result"]),
     VR.Concurrent: _node(VR.Concurrent, ["f_scope", "f_stmts", "f_name", "f_attr"]),
     VR.Entity: _node(VR.Entity, ["f_info", "f_scope", "f_blocks"]), VR.Architecture: _node(VR.Architecture, ["f_scope", "f_entity", "f_blocks"]),
+    VR.Block: _node(VR.Block, ["f_scope", "f_content"]),
 }
 
 DIRS = {"in": Port.Direction.INPUT, "out": Port.Direction.OUTPUT, "inout": Port.Direction.INOUT}
@@ -203,9 +204,23 @@ def template_shape(ports, known):
         for i, (d, has, dv) in enumerate(ports):
             nm = f"port{i}" + ("_" if i == 1 else "")
             decls[nm] = SObj(_PortDecl, f_direction=DIRS[d], f_has_default=has, f_default=dv, f_name=nm, type=Opaque(f"type{i}"), f_idx=i)
-        return SObj(ir.EntityTemplate, f_ports=decls, _attributes={}, f_known=known)
+        # children: one sub-block and one concurrent context -- they must be converted inside the ALIAS scope
+        # (where an output port stands for its buffer), not the architecture scope (C07: one driver per port)
+        sub = SObj(ir.Block, f_subblocks=[], f_contexts=[], _attributes={}, f_name="blk")
+        cctx = SObj(ir.Concurrent, f_code=SObj(_IrCode), attributes={}, f_name="ctx")
+        return SObj(ir.EntityTemplate, f_ports=decls, _attributes={}, f_known=known, f_subblocks=[sub], f_contexts=[cctx])
 
     return Built([], make, lambda a: "<template>", lambda a: None)
+
+
+class _IrCode:
+    """code block of a context: nothing inside"""
+
+
+_IrCode.visit_referenced_objects = lambda self, op: None
+_IrCode.content = lambda self: []
+I.register_model(_IrCode.visit_referenced_objects, lambda it, self, op: None)
+I.register_model(_IrCode.content, lambda it, self: [])
 
 
 def asm_spec(ports, known):
@@ -246,6 +261,18 @@ def asm_spec(ports, known):
                 nm = p.fields["f_name"]
                 if b.fields["f_kw"].get("name") != (f"buffer{nm}" if nm.endswith("_") else f"buffer_{nm}").strip("_"):
                     return False
+            # the children live in the alias scope: the scope in which an output port is replaced by its buffer
+            blocks = res.fields["f_blocks"]
+            if len(blocks) != 3:
+                return False
+            alias_scope = res.fields["f_scope"]
+            if not (isinstance(alias_scope, SObj) and alias_scope.fields.get("f_kind") == "alias"):
+                return False
+            sub, cctx = blocks[1], blocks[2]
+            if not (isinstance(sub, SObj) and sub.kind is VR.Block and sub.fields["f_scope"] is alias_scope):
+                return False
+            if not (isinstance(cctx, SObj) and cctx.kind is VR.Concurrent and cctx.fields["f_scope"] is alias_scope):
+                return False
             return True
 
         return C.Pred(holds, "ports declared in order; one buffer per output with the port's default; cached")
@@ -253,7 +280,7 @@ def asm_spec(ports, known):
     return spec
 
 
-con = contract("cohdl._compiler.backend.vhdl._vhdl_assembler:VhdlAssembler.apply", PROPS)
+con = contract("cohdl._compiler.backend.vhdl._vhdl_assembler:VhdlAssembler.apply", PROPS + ("C07",))
 for n in range(0, 3):
     for ports in itertools.product(PORT_KINDS, repeat=n):
         for known in ((False, True) if n == 1 and ports[0][0] == "out" and ports[0][1] is False else (False,)):
@@ -264,8 +291,11 @@ for n in range(0, 3):
             c.models = [
                 (ir.EntityTemplate.__dict__["port_declarations"], lambda it, self: self.fields["f_ports"]),
                 (ir.EntityTemplate.__dict__["generic_declarations"], lambda it, self: {}),
-                (ir.Block.__dict__["subblocks"], lambda it, self: []),
-                (ir.Block.__dict__["contexts"], lambda it, self: []),
+                (ir.Block.__dict__["subblocks"], lambda it, self: self.fields.get("f_subblocks", [])),
+                (ir.Block.__dict__["contexts"], lambda it, self: self.fields.get("f_contexts", [])),
+                (ir.Block.__dict__["name"], lambda it, self: self.fields.get("f_name")),
+                (ir.Context.__dict__["name"], lambda it, self: self.fields.get("f_name")),
+                (ir.Context.__dict__["code"], lambda it, self: self.fields["f_code"]),
                 (ir.EntityTemplate.__dict__["info"], lambda it, self: "INFO"),
                 (VA.VhdlAssembler.__dict__["_get_known_templates"], lambda it, self: it.known),
                 (VA.VhdlAssembler.__dict__["_add_template"], lambda it, self, inp, ret: it.added.append((inp, ret))),
